@@ -13,7 +13,9 @@ TRUSTED = {
     'A6': 'A6 smawk::online_column_minima(init, n, f) calls f(m, i, j) only with i < j < n, i < m.len(), and returns a back-pointer table of length n with '
           'm[0].0 == 0 and m[k].0 < k; its minimality additionally needs total monotonicity, which nobody proves (optimality is bounded-only). '
           'The shape is checked on the real smawk crate by the bounded contract A6.smawk.call_shape (C03, C06)',
-    'A7': 'A7 LineNumbers::{new,get} (RefCell + recursion) are external_body: assumed to terminate and return some usize',
+    'A7': 'A7 LineNumbers (RefCell memo of line numbers): PROVED in unit U23 for a fixed back-pointer table of smawk\'s shape — get terminates, never panics and returns the '
+          'number of back-pointer hops (rewrite R17: RefCell<Vec> verified as a Vec behind &mut self; no two borrows overlap). In U2 the call stays abstract (any usize), because '
+          'the memo is kept across the growing tables smawk passes: that a finished prefix never changes is part of A6 and checked on the real smawk crate by BEC A6.smawk.call_shape',
     'A8': 'A8 termination of display_width\'s loop: the proved invariant shows remaining() strictly shrinks, but Verus forbids prophetic values in '
           'decreases (exec_allows_no_decreases_clause on that one function)',
     'A9': 'A9 restated callee contracts: Verus runs one file per unit, so a callee proved in another unit appears in the caller\'s unit as an external_body function whose '
@@ -34,6 +36,8 @@ TRUSTED = {
            'char boundaries inside the word; a WordSeparator::Custom function returns words that tile the line with cached widths equal to their display widths (their authors\' obligations)',
     'R16': 'R16 closure conversion: the body of an `iter::from_fn(move || …)` closure is verified as the `next` method of a struct holding the captured variables '
            '(same tokens, captures prefixed by `self.`); that `collect()` calls `next` until None and keeps the items in order is std behaviour (A4)',
+    'R17': 'R17 RefCell<Vec<usize>> is verified as a plain Vec behind &mut self (LineNumbers): every borrow()/borrow_mut() is a temporary that dies within its own '
+           'statement and none overlaps another or the recursive call, so the dynamic borrow checks cannot fail',
     'R15': 'R15 generic parameters are verified at one instance: Opt = Options<\'a> (Into is the identity there), I = Vec<Word<\'a>>',
 }
 
@@ -67,7 +71,7 @@ PROPS = {
                        'finders and is checked by bounded exhaustive enumeration.',
     },
     'C03': {
-        'units': ['U2'], 'level': 'other', 'trusted': ['A1', 'A5', 'A6', 'A7', 'A11', 'A12'], 'bec_flavors': ['default'],
+        'units': ['U2', 'U23'], 'level': 'other', 'trusted': ['A1', 'A5', 'A6', 'A7', 'A11', 'A12', 'R17'], 'bec_flavors': ['default'],
         'proved_part': 'Verus: prefix sums are the left fold of width+whitespace; the closure passed to SMAWK returns exactly the documented cost (per-line penalty, squared gap '
                        'except on the last line, linear overflow penalty, short-last-line penalty, hyphen penalty) over uninterpreted IEEE operations; the result is an ordered partition.',
         'bounded_part': 'BEC: minimality — cost(returned) == minimum over all 2^(n-1) arrangements in exact integer arithmetic and <= cost(first-fit), exhaustive for short '
@@ -75,8 +79,8 @@ PROPS = {
         'explanation': 'Mixed: the cost model and the structure are proved; minimality is bounded-only (Verus has no float theory; SMAWK\'s guarantee needs total monotonicity).',
     },
     'C04': {
-        'units': ['U1', 'U2', 'U3', 'U4', 'U5', 'U6', 'U8', 'U9', 'U10', 'U11', 'U12', 'U13', 'U14', 'U15', 'U16', 'U17', 'U18', 'U20', 'U21', 'U22'], 'level': 'other', 'kani': [K1, K1MIN],
-        'trusted': ['A1', 'A2', 'A3', 'A4', 'A5', 'A6', 'A7', 'A8', 'A9', 'A10', 'A11', 'A12', 'R15'],
+        'units': ['U1', 'U2', 'U3', 'U4', 'U5', 'U6', 'U8', 'U9', 'U10', 'U11', 'U12', 'U13', 'U14', 'U15', 'U16', 'U17', 'U18', 'U20', 'U21', 'U22', 'U23'], 'level': 'other', 'kani': [K1, K1MIN],
+        'trusted': ['A1', 'A2', 'A3', 'A4', 'A5', 'A6', 'A7', 'A8', 'A9', 'A10', 'A11', 'A12', 'R15', 'R16', 'R17'],
         'proved_part': 'Verus: absence of panics (index/slice bounds incl. char boundaries in NonEmptyLines, arithmetic overflow, unwrap on None, callee preconditions) and '
                        'termination for wrap_first_fit, wrap_optimal_fit (Err only from the is_infinite test), skip_ansi_escape_sequence, display_width (A8), NonEmptyLines::next, '
                        'wrap_columns (A11), Word::from, break_words, indent, dedent, fill_inplace (incl. from_utf8().unwrap()), wrap, wrap_single_line, wrap_single_line_slow_path (incl. char-boundary safety of its slices), fill_slow_path, unfill (incl. the #466 class of slice panics), WordSplitter::split_points, WrapAlgorithm::wrap, strip_ansi_escape_sequences, find_words_ascii_space, split_words and Word::break_apart (closures, R16).',
@@ -95,7 +99,7 @@ PROPS = {
         'explanation': 'Mixed: the lemma that makes the shortcut sound is proved; equality of the two code paths is relational over two calls and checked by bounded exhaustive enumeration.',
     },
     'C06': {
-        'units': ['U1', 'U2', 'U17'], 'level': 'proof', 'trusted': ['A1', 'A5', 'A6', 'A7', 'A11', 'A12', 'A14', 'A15'],
+        'units': ['U1', 'U2', 'U17', 'U23'], 'level': 'proof', 'trusted': ['A1', 'A5', 'A6', 'A7', 'A11', 'A12', 'A14', 'A15', 'R17'],
         'proved_part': 'Verus, all inputs: both algorithms return >= 1 line, the lines\' views concatenate to fragments@, each line is the subrange between consecutive breaks, '
                        'lines are non-empty for non-empty input, exactly one empty line for empty input (optimal-fit: when it returns Ok; under the assumed SMAWK table shape A6).',
         'bounded_part': 'BEC cross-check with real IEEE floats (negative, fractional, huge), empty width lists, pointer identity of the returned slices. '
